@@ -1,6 +1,7 @@
 package main
 
 import (
+	"runtime/debug"
 	"strings"
 	"fmt"
 	"os"
@@ -35,6 +36,9 @@ func (e *Exec) VerifyFunc(fn *ssa.Function, ct *Contract, setup func(st *State, 
 		if r := recover(); r != nil {
 			applies.Status = "undecided"
 			applies.Output = fmt.Sprint("the contract could not be evaluated on the current code: ", r)
+			if os.Getenv("VERIF_DEBUG") != "" {
+				applies.Output += "\n" + string(debug.Stack())
+			}
 		}
 	}()
 	st := NewState()
